@@ -20,6 +20,7 @@ structure St where
   panicMsg : List (Nat × String) := []   -- sink ↦ text of the value its `Write` panics with (a harness token)
   panicSent : List Nat := []             -- sinks whose `Write` panics with the sentinel itself
   vars : List Nat := []                  -- sinks whose handler family shares a `*slog.LevelVar`
+  failMsg : List (Nat × String) := []    -- sink ↦ `Error()` text of the foreign error value its `Write` returns (token)
 
 def getH (s : St) (n : String) : Option H := s.handlers.lookup n
 def setH (s : St) (n : String) (h : H) : St := { s with handlers := (n, h) :: s.handlers.filter (·.1 != n) }
@@ -86,6 +87,19 @@ def showWrites (ws : List (Nat × TL.Bytes)) : List String :=
     let mine := (ws.filter (·.1 == i)).map (·.2)
     "S" ++ toString i ++ "=" ++ toString mine.length ++ String.join (mine.map fun b => ":" ++ bytesHex b)
 
+/-- nil values of nillable kinds: the library takes them for "no error" (design Appendix B) -/
+def nilKinds : List String := ["nilptr", "nilslice", "nilmap", "nilfunc", "nilchan"]
+
+/-- `Error()` text of the error kinds of `go/cmd/c13/errkinds.go` (tokens) -/
+def kindMsg (k : String) : String :=
+  match k with
+  | "deadline" => "context deadline exceeded" | "canceled" => "context canceled" | "eof" => "EOF"
+  | "notexist" => "file does not exist" | "patherr" => "open /x: file does not exist"
+  | "zstruct" | "nzstruct" => "K:struct" | "zint" | "nzint" => "K:int" | "zstring" | "nzstring" => "K:string"
+  | "zarray" | "nzarray" => "K:array" | "ptr" | "zptr" | "nilptr" => "K:ptr" | "slice" | "eslice" | "nilslice" => "K:slice"
+  | "map" | "emap" | "nilmap" => "K:map" | "func" | "nilfunc" => "K:func" | "chan" | "nilchan" => "K:chan"
+  | _ => "?"
+
 def errMsg (k : TL.ErrKind) (sink : Nat) : String :=
   match k with
   | .sentinel => "sinksentinel" ++ toString sink
@@ -127,7 +141,7 @@ def showSentinels (s : St) : String :=
 def retVal (s : St) (ret : TL.Ret) : St × Errs.Val :=
   match ret with
   | .nil => (s, .nilIface)
-  | .err k .plain => (s, .plain 0 (errMsg .plain k))
+  | .err k .plain => (s, .plain 0 ((s.failMsg.lookup k).getD (errMsg .plain k)))
   | .err k .fresh => let (eh, v) := Errs.new s.eh (errMsg .fresh k); ({ s with eh := eh }, v)
   | .err k .sentinel =>
     match s.sentinels.lookup k with
@@ -155,6 +169,7 @@ def childOf (s : St) (i : Nat) (c : TL.Handler) : ML.Child :=
     | .nil => .ok
     | .err _ .typedNil => .ok          -- `errs.Append` takes a typed nil for "no error"
     | .err _ .foreignNil => .ok
+    | .err k .plain => .err ((s.failMsg.lookup k).getD (errMsg .plain k))
     | .err k kind => .err (errMsg kind k)
     | .panic k =>
       if s.panicSent.contains k then .panic ("sinksentinel" ++ toString k)
@@ -170,6 +185,14 @@ def tlHandle (s : St) (h : TL.Handler) (r : TL.Record) : St × List (Nat × TL.B
   let (sk', ws, ret) := TL.deliver sk h.sink (TL.render s.store h r)
   (setS s h.sink sk', ws.map (fun w => (h.sink, w)), ret)
 
+/-- how many of these deliveries come back with a non-nil `error` interface (synchronous sinks in a failing mode; a
+    panic returns nothing) — the harness counts the same with `err != nil` -/
+def nonNil (s : St) (cs : List TL.Handler) : String :=
+  "nn=" ++ toString (cs.filter fun c =>
+    match getS s c.sink with
+    | some sk => sk.buf.isNone && (match sk.mode with | .fail _ => true | _ => false)
+    | none => false).length
+
 def doLog (s : St) (h : H) (r : TL.Record) : St × String :=
   match h with
   | .tl t =>
@@ -178,8 +201,9 @@ def doLog (s : St) (h : H) (r : TL.Record) : St × String :=
       | .panic k =>
         (s', "ret=panic:" ++ (if s.panicSent.contains k then "sinksentinel" ++ toString k
                               else (s.panicMsg.lookup k).getD ("sinkpanic" ++ toString k)))
+      | .err k .foreignNil => (s', "ret=E:" ++ (s.failMsg.lookup k).getD "foreign-nil")
       | ret => let (s2, v) := retVal s' ret; (s2, showVal s2.eh v)
-    (s', " ".intercalate (showWrites ws ++ [out, showSentinels s']))
+    (s', " ".intercalate (showWrites ws ++ [out, nonNil s [t], showSentinels s']))
   | .ml m =>
     let res := ML.handle (children s m) r.level
     -- deliveries in order; each child's return value goes into the accumulation on the errs heap
@@ -201,7 +225,7 @@ def doLog (s : St) (h : H) (r : TL.Record) : St × String :=
     let hasAgg := (children s m).any fun c => match c.outcome with
       | .err msg => msg.startsWith "sinkagg" | _ => false
     let ret := if ret == abstract || hasAgg then ret else ret ++ " list-model-differs:" ++ abstract
-    (s', " ".intercalate (showWrites ws ++ [ret, showSentinels s']))
+    (s', " ".intercalate (showWrites ws ++ [ret, nonNil s (res.deliveries.filterMap (m.children[·]?)), showSentinels s']))
 
 def isEnabled (s : St) (h : H) (level : Int) : Bool :=
   match h with
@@ -220,19 +244,19 @@ def logX (s : St) : List String → St × String
     match getH s h, lvl.toInt?, hexBytes? msg, parseAttrs ws [] with
     | some h, some lvl, some msg, some as =>
       if isEnabled s h lvl then
-        let noErr := ek == "n" || ek == "t"
+        let noErr := ek == "n" || ek == "t" || (ek.startsWith "k:" && nilKinds.contains (ek.drop 2).toString)
         let r : TL.Record := if noErr then { level := lvl, ts := nowTok, msg := [], attrs := as }
           else { level := lvl, ts := nowTok, msg := msg,
                  attrs := .stack TL.stackKey stackTok (.leaf TL.stackKey fbTok) :: as }
         let (s', out) := doLog s h r
         -- errs.Log* discards Handle's result; a panic of a tracelog sink still reaches the caller
-        match out.splitOn " sent=" with
+        match out.splitOn " nn=" with
         | [a, b] =>
           match a.splitOn "ret=" with
-          | [w, r] => (s', w ++ (if r.startsWith "panic:" then "ret=" ++ r else "ret=void") ++ " sent=" ++ b)
+          | [w, r] => (s', w ++ (if r.startsWith "panic:" then "ret=" ++ r else "ret=void") ++ " nn=" ++ b)
           | _ => (s', out)
         | _ => (s', out)
-      else (s, "ret=void " ++ showSentinels s)
+      else (s, "ret=void nn=0 " ++ showSentinels s)
     | _, _, _, _ => (s, "bad-op")
   | _ => (s, "bad-op")
 
@@ -400,7 +424,10 @@ def step (s : St) (line : String) : St × String :=
           | "ok" => some .ok | "fail" => some (.fail .plain) | "faile" => some (.fail .fresh)
           | "fails" => some (.fail .sentinel) | "failm" => some (.fail .aggregate)
           | "failn" => some (.fail .typedNil) | "failf" => some (.fail .foreignNil)
-          | "panic" | "panice" | "panicr" | "panicp" | "panicn" | "panics" => some .panic | _ => none
+          | "panic" | "panice" | "panicr" | "panicp" | "panicn" | "panics" => some .panic
+          | m => if m.startsWith "failk:" then
+                   (if nilKinds.contains (m.drop 6).toString then some (.fail .foreignNil) else some (.fail .plain))
+                 else none
         match mode? with
         | some md =>
           if sk.buf.isSome && md == .panic then (s, "bad-op") else
@@ -410,6 +437,8 @@ def step (s : St) (line : String) : St × String :=
             | "panicp" => "<nil>"
             | "panicn" => "PANICNIL"
             | _ => "sinkpanic" ++ toString i
+          let s := { s with failMsg := if m.startsWith "failk:" then (i, kindMsg (m.drop 6).toString) :: s.failMsg.filter (·.1 != i)
+                                       else s.failMsg.filter (·.1 != i) }
           let s := { s with panicMsg := (i, txt) :: s.panicMsg.filter (·.1 != i),
                             panicSent := if m == "panics" then i :: s.panicSent else s.panicSent.filter (· != i) }
           (setS s i { sk with mode := md }, "ok")
